@@ -36,7 +36,7 @@ _logger.addHandler(logging.NullHandler())
 
 def _verbose(self: logging.Logger, msg, *args, **kwargs):
     if self.isEnabledFor(LOG_VERBOSE):
-        self._log(LOG_VERBOSE, msg, *args, **kwargs)
+        self._log(LOG_VERBOSE, msg, args, **kwargs)
 
 
 logging.addLevelName(LOG_VERBOSE, "VERBOSE")
